@@ -101,6 +101,7 @@ def run_arms(F, eng, fname, enum_ty):
     eng.visited.add(fname)
     eng.top = fname
     pname = [p["name"] for p in f["hir"]["params"] if p.get("k") == "bind" and p["name"] != "self"][0]
+    eng.pname = pname
     res = {}
     for var in [v for v, _ in F.enum_variants(enum_ty)]:
         for kind in ("main", "fn", "filter"):
@@ -138,6 +139,22 @@ def run_fn(F, eng, fname):
             ends.append(("err" if (v and v[0] == "res_err") else "ok", s))
         res[kind] = ends
     return res
+
+
+canon = e5.canon
+
+
+def corder(s, pname):
+    """the path's child-compilation order with canonical keys: [(key, class)]"""
+    return tuple((canon(s, o[0], pname), o[1]) if len(o) > 1 else o for o in s.order)
+
+
+def cfact(s, pname, prefix, ckey):
+    """value of the fact `prefix:<k>` whose key canonicalises to ckey (None when the path has none)"""
+    for fk, fv in s.facts.items():
+        if fk.startswith(prefix + ":") and canon(s, fk[len(prefix) + 1:], pname) == ckey:
+            return fv
+    return None
 
 
 def access_of(s, pname, var):
